@@ -9,8 +9,10 @@
 
    Vocabulary (Ledger/InvBridge.v, Ledger/InvBridgeLib.v):
    - is_base_module_msg m : m is one of the nine credit messages of InvBase.v or an administrative /
-     governance / bank-send message of InvAdmin.v.  Basket and marketplace messages are not covered
-     by the statements below (their handlers do not mention origin_txs or batch_contracts).
+     governance / bank-send message of InvAdmin.v.  The first group of statements is about these;
+     the last section of this file (Ledger/InvAllBridge.v) lifts them to EVERY message of every family
+     (basket and marketplace handlers leave origin_txs and batch_contracts alone), to begin-block and
+     to whole histories (reaches, Step.run).
    - origin_of m          : the origin tx carried by CreateBatch / MintBatchCredits / BridgeReceive.
    - issue_class s m      : the class issued into (project's class; batch's project's class; the class
                             named by class_id).
@@ -25,6 +27,8 @@ Require Import Regen.Base.Bytes Regen.Dec.Dec.
 Require Import Regen.Ledger.Types Regen.Ledger.Msgs Regen.Ledger.Orm Regen.Ledger.BaseMsgs Regen.Ledger.Step
                Regen.Ledger.Amount Regen.Ledger.Inv Regen.Ledger.InvBaseLib Regen.Ledger.InvBase3
                Regen.Ledger.InvBridgeLib Regen.Ledger.InvBridge Regen.Ledger.InvBaseExample Regen.Ledger.InvBridgeExample.
+Require Import Regen.Base.Calendar Regen.Ledger.BasketMsgs Regen.Ledger.MarketMsgs.
+Require Import Regen.Ledger.InvMarketLib Regen.Ledger.InvMarket Regen.Ledger.InvAllLib Regen.Ledger.InvAllRun Regen.Ledger.InvAllBridge.
 Import ListNotations.
 Local Open Scope Z_scope.
 
@@ -116,3 +120,106 @@ Example C13_replay_trace :
      [via_create (otx_of tx1 "polygon" con1); via_mint (otx_of tx1 "Polygon" con2);
       via_receive (otx_of tx1 "POLYGON" con2)]) = 1%nat.
 Proof. exact replay_trace_ok. Qed.
+
+(* ---- every message of every family, begin-block and whole histories (Ledger/InvAllBridge.v) ---- *)
+(* any message of any family: the contract invariant is kept, the origin-tx index only grows, bound contracts stay *)
+Theorem C13_every_message_preserves_bridge_tables : forall e s m s' r evs,
+  Inv_contracts s -> Inv_core s -> Inv_bound s -> validate_basic m = true -> handle e s m = LOk (s', r, evs) ->
+  Inv_contracts s' /\ origin_txs s ⊆ origin_txs s' /\
+  (forall k bc, batch_contracts s !! k = Some bc -> batch_contracts s' !! k = Some bc).
+Proof. exact contracts_preserved_all. Qed.
+Print Assumptions C13_every_message_preserves_bridge_tables.
+
+Theorem C13_begin_block_leaves_bridge_tables : forall t s s',
+  Inv_contracts s -> Inv_core s -> begin_block t s = LOk s' ->
+  Inv_contracts s' /\ origin_txs s' = origin_txs s /\ batch_contracts s' = batch_contracts s.
+Proof. exact begin_block_contracts_preserved. Qed.
+Print Assumptions C13_begin_block_leaves_bridge_tables.
+
+(* no family restriction: an issuing message succeeds only if its origin tx is new in the class *)
+Theorem C13_origin_tx_once_any_message : forall e s m o s' r evs,
+  Inv_contracts s -> origin_of m = Some o -> handle e s m = LOk (s', r, evs) ->
+  exists ck, issue_class s m = Some ck /\
+    origin_key ck o ∉ origin_txs s /\ origin_key ck o ∈ origin_txs s' /\
+    origin_txs s' = {[ origin_key ck o ]} ∪ origin_txs s.
+Proof. exact origin_tx_once_all. Qed.
+Print Assumptions C13_origin_tx_once_any_message.
+
+Theorem C13_other_messages_leave_index : forall e s m s' r evs,
+  Inv_contracts s -> Inv_core s -> Inv_bound s -> validate_basic m = true -> handle e s m = LOk (s', r, evs) ->
+  origin_of m = None -> origin_txs s' = origin_txs s.
+Proof. exact origin_txs_unchanged_all. Qed.
+Print Assumptions C13_other_messages_leave_index.
+
+Theorem C13_invariant_in_every_reachable_state : forall g s,
+  Inv_run g -> Inv_contracts g -> reaches g s -> Inv_contracts s.
+Proof. exact reaches_contracts. Qed.
+Print Assumptions C13_invariant_in_every_reachable_state.
+
+(* between any two points of any history *)
+Theorem C13_recorded_forever : forall g s1 s2,
+  Inv_run g -> Inv_contracts g -> reaches g s1 -> reaches s1 s2 ->
+  origin_txs s1 ⊆ origin_txs s2 /\
+  (forall k bc, batch_contracts s1 !! k = Some bc -> batch_contracts s2 !! k = Some bc).
+Proof. exact reaches_bridge_mono. Qed.
+Print Assumptions C13_recorded_forever.
+
+(* an origin tx recorded at any earlier point of the history cannot issue later, through whichever of the three entry points *)
+Theorem C13_recorded_origin_never_issues_again : forall g s1 s2 e m o ck s' r evs,
+  Inv_run g -> Inv_contracts g -> reaches g s1 -> reaches s1 s2 ->
+  origin_key ck o ∈ origin_txs s1 -> origin_of m = Some o -> issue_class s2 m = Some ck ->
+  handle e s2 m = LOk (s', r, evs) -> False.
+Proof. exact recorded_never_reissues. Qed.
+Print Assumptions C13_recorded_origin_never_issues_again.
+
+(* a later receipt for a contract bound earlier mints into that same batch *)
+Theorem C13_bound_contract_same_batch_forever : forall g s1 s2 e issuer class_id pjr bar o s' r evs bk bc ck cl,
+  Inv_run g -> Inv_contracts g -> reaches g s1 -> reaches s1 s2 ->
+  batch_contracts s1 !! bk = Some bc -> class_by_id s2 class_id = Some (ck, cl) ->
+  bc_class_key bc = ck -> ot_contract o = bc_contract bc ->
+  handle e s2 (MBridgeReceive issuer class_id pjr bar (Some o)) = LOk (s', r, evs) ->
+  exists ba pj bb,
+    batches s2 !! bk = Some ba /\ projects s2 !! ba_project_key ba = Some pj /\ bar = Some bb /\
+    batch_by_denom s2 (ba_denom ba) = Some (bk, ba) /\
+    h_mint_batch_credits e s2 issuer (ba_denom ba) (bridge_issuance bb) (Some o) = LOk (s', REmpty, []) /\
+    r = RBridgeReceive (ba_denom ba) (pj_id pj) /\
+    evs = [EvBridgeReceive (pj_id pj) (ba_denom ba) (brb_amount bb) o] /\
+    batches s' = batches s2 /\ batch_seq_id s' = batch_seq_id s2 /\ batch_contracts s' = batch_contracts s2.
+Proof. exact bound_contract_same_batch. Qed.
+Print Assumptions C13_bound_contract_same_batch_forever.
+
+(* ghost trace of the issuing origin txs along Step.run with arbitrary messages in the blocks: no key twice, none that genesis already recorded, and the index is exactly genesis + trace *)
+Theorem C13_run_no_double_issuance : forall authority g h s,
+  Inv_run g -> Inv_contracts g -> run authority g h = LOk s ->
+  NoDup (issued_origins_run authority g h) /\
+  (forall k, In k (issued_origins_run authority g h) -> k ∉ origin_txs g) /\
+  origin_txs s = origin_txs g ∪ list_to_set (issued_origins_run authority g h).
+Proof. exact run_no_double_issuance. Qed.
+Print Assumptions C13_run_no_double_issuance.
+
+Theorem C13_run_keeps_invariant : forall authority g h s,
+  Inv_run g -> Inv_contracts g -> run authority g h = LOk s -> Inv_contracts s.
+Proof. exact run_contracts. Qed.
+Print Assumptions C13_run_keeps_invariant.
+
+Example C13_history_hypotheses_satisfiable :
+  Inv_run empty_state /\ Inv_contracts empty_state.
+Proof. exact bridge_hyps_satisfiable. Qed.
+Print Assumptions C13_history_hypotheses_satisfiable.
+
+(* two blocks mixing base, basket and marketplace messages with replays: the trace is exactly the two fresh origin txs *)
+Example C13_run_trace_example :
+  let o := InvBridgeExample.otx_of in
+  let h := [ {| blk_time := mk_ts 1700000000 0;
+                blk_msgs := [InvBridgeExample.via_create (o InvBridgeExample.tx1 "polygon"%string InvBridgeExample.con1);
+                             MUpdateBasketFee addr_gov None;
+                             InvBridgeExample.via_mint (o InvBridgeExample.tx1 "Polygon"%string InvBridgeExample.con2)] |};
+             {| blk_time := mk_ts 1700000006 0;
+                blk_msgs := [MCancelSellOrder 1%N 5%N;
+                             InvBridgeExample.via_receive (o InvBridgeExample.tx1 "POLYGON"%string InvBridgeExample.con2);
+                             InvBridgeExample.via_receive (o InvBridgeExample.tx2 "Polygon"%string InvBridgeExample.con2)] |} ] in
+  issued_origins_run addr_gov InvBridgeExample.base_state h =
+    [ (1%N, b InvBridgeExample.tx1, b "polygon"%string); (1%N, b InvBridgeExample.tx2, b "polygon"%string) ].
+Proof. exact run_trace_example. Qed.
+Print Assumptions C13_run_trace_example.
+
